@@ -22,6 +22,7 @@ pub struct Expect {
     pub final_state: (i32, i32, BTreeMap<i32, i32>),
 }
 
+#[derive(Clone)]
 struct Ref<'a> {
     p: &'a Program,
     v: i32,
@@ -167,80 +168,174 @@ impl<'a> Ref<'a> {
     }
 }
 
+impl RootEv {
+    /// The lane whose (ordered) request channel carries this event: 0 = c, 1 = v, 2 = w, 3 = m.
+    fn lane(&self) -> usize {
+        match self {
+            RootEv::Cmd => 0,
+            RootEv::ExtSetV(_) => 1,
+            RootEv::ExtSetW(_) => 2,
+            _ => 3,
+        }
+    }
+}
+
+#[derive(Clone, Copy)]
+enum Opt {
+    Susp(usize),
+    Root(usize),
+}
+
+struct Search<'a, 'o> {
+    /// Per lane: (index in the script, event), in script order.
+    queues: [Vec<(usize, RootEv)>; 4],
+    obs: Option<(&'o [String], bool)>,
+    found: Option<Expect>,
+    /// Best failed candidate: (length of the common prefix with the observed trace, expectation).
+    best: Option<(usize, Expect)>,
+    nodes: usize,
+    _p: std::marker::PhantomData<&'a ()>,
+}
+
+const NOTE_SIG: &str = "law=fail_ends_agent cascade=command got=agent_continues";
+const NOTE_TXT: &str = "a handler of a cascade started by a command failed; the rest of the cascade was abandoned but the agent went on handling events instead of failing";
+
+fn common_prefix(a: &[String], b: &[String]) -> usize {
+    a.iter().zip(b.iter()).take_while(|(x, y)| x == y).count()
+}
+
+impl<'a, 'o> Search<'a, 'o> {
+    fn finish(&mut self, r: Ref<'a>, failed_in: Option<&'static str>, notes: Vec<(String, String)>, complete: bool) {
+        let e = Expect { final_state: (r.v, r.w, r.m.clone()), noop_removes: r.noop_removes, trace: r.out, failed_in, notes, nested_bodies: r.nested_bodies };
+        match self.obs {
+            None => self.found = Some(e),
+            Some((o, _)) => {
+                if complete && e.trace.as_slice() == o {
+                    self.found = Some(e);
+                } else {
+                    let c = common_prefix(&e.trace, o);
+                    if self.best.as_ref().map(|b| c > b.0).unwrap_or(true) {
+                        self.best = Some((c, e));
+                    }
+                }
+            }
+        }
+    }
+
+    fn go(&mut self, r: Ref<'a>, pos: [usize; 4], notes: Vec<(String, String)>) {
+        self.nodes += 1;
+        if self.found.is_some() {
+            return;
+        }
+        // what can run next: a pending suspended cascade, or the next request of any lane (requests of
+        // one lane are handled in order; the order between lanes is up to the runtime)
+        let mut opts: Vec<Opt> = vec![];
+        let mut seen_tags = vec![];
+        for (i, pnd) in r.pending.iter().enumerate() {
+            if !seen_tags.contains(&pnd.0) {
+                seen_tags.push(pnd.0);
+                opts.push(Opt::Susp(i));
+            }
+        }
+        let mut lanes: Vec<(usize, usize)> = (0..4).filter(|&l| pos[l] < self.queues[l].len()).map(|l| (self.queues[l][pos[l]].0, l)).collect();
+        lanes.sort();
+        opts.extend(lanes.into_iter().map(|(_, l)| Opt::Root(l)));
+        if self.obs.is_none() || self.nodes > 50_000 {
+            opts.truncate(1); // canonical order only
+        }
+        if opts.is_empty() {
+            // on_stop runs last
+            let mut r = r;
+            r.out.push("stop".into());
+            if r.body(STOP).is_err() {
+                return self.finish(r, Some("on_stop"), notes, true);
+            }
+            r.out.push(format!("final(v={},w={},m={:?})", r.v, r.w, mapv(&r.m)));
+            // (cascades suspended by on_stop itself never run: nothing runs after on_stop)
+            return self.finish(r, None, notes, true);
+        }
+        for opt in opts {
+            if self.found.is_some() {
+                return;
+            }
+            let mut r2 = r.clone();
+            let mut pos2 = pos;
+            let mut notes2 = notes.clone();
+            let (res, cascade) = match opt {
+                Opt::Susp(ix) => {
+                    let (t, h, y) = r2.pending.remove(ix);
+                    r2.out.push(format!("susp#{}", t));
+                    (r2.exec(&h, y), "suspended")
+                }
+                Opt::Root(l) => {
+                    let ev = self.queues[l][pos[l]].1;
+                    pos2[l] += 1;
+                    let res = match ev {
+                        RootEv::Cmd => {
+                            r2.out.push("cmd(go)".into());
+                            r2.body(ROOT)
+                        }
+                        RootEv::ExtSetV(x) => r2.exec(&H::SetV(X::Lit(x)), 0),
+                        RootEv::ExtSetW(x) => r2.exec(&H::SetW(X::Lit(x)), 0),
+                        RootEv::ExtUpd(k, x) => r2.exec(&H::Upd(k, X::Lit(x)), 0),
+                        RootEv::ExtRem(k) => r2.exec(&H::Rem(k), 0),
+                        RootEv::ExtClr => r2.exec(&H::Clr, 0),
+                    };
+                    (res, "command")
+                }
+            };
+            if let Some((o, ok)) = self.obs {
+                if common_prefix(&r2.out, o) < r2.out.len() {
+                    // this order is not what was observed
+                    self.finish(r2, None, notes2, false);
+                    continue;
+                }
+                if res.is_err() {
+                    // documented: "Fail with an error. In this case all execution will stop and the agent will fail."
+                    let continues = o.len() > r2.out.len() || ok;
+                    if cascade == "command" && continues {
+                        if notes2.is_empty() {
+                            notes2.push((NOTE_SIG.to_string(), NOTE_TXT.to_string()));
+                        }
+                        self.go(r2, pos2, notes2);
+                    } else {
+                        self.finish(r2, Some(cascade), notes2, true);
+                    }
+                    continue;
+                }
+            } else if res.is_err() {
+                self.finish(r2, Some(cascade), notes2, true);
+                continue;
+            }
+            self.go(r2, pos2, notes2);
+        }
+    }
+}
+
 /// The expected trace. Where the documentation leaves the order open (when a suspended cascade
-/// runs relative to later commands) the observed trace, if given, chooses among the legal orders.
+/// runs relative to later requests; the order in which requests addressed to different lanes are
+/// taken up) the observed trace, if given, chooses among the legal orders: the result is a legal
+/// execution equal to the observed one if there is any, else the legal execution sharing the
+/// longest prefix with it. Link and sync requests trigger no lifecycle handler.
 pub fn expected(p: &Program, roots: &[RootEv], observed: Option<(&[String], bool)>) -> Expect {
     let mut r = Ref { p, v: 0, w: 0, m: BTreeMap::new(), out: vec![], pending: vec![], nested_bodies: 0, noop_removes: 0 };
-    let mut notes = vec![];
-    let fin = |r: Ref, failed_in: Option<&'static str>, notes: Vec<(String, String)>| Expect {
-        final_state: (r.v, r.w, r.m.clone()),
-        noop_removes: r.noop_removes,
-        trace: r.out,
-        failed_in,
-        notes,
-        nested_bodies: r.nested_bodies,
-    };
+    let mut queues: [Vec<(usize, RootEv)>; 4] = Default::default();
+    for (i, ev) in roots.iter().enumerate() {
+        queues[ev.lane()].push((i, *ev));
+    }
+    let mut s = Search { queues, obs: observed, found: None, best: None, nodes: 0, _p: std::marker::PhantomData };
     // on_start runs before any other handler
     r.out.push("start".into());
     if r.body(START).is_err() {
-        return fin(r, Some("on_start"), notes);
+        s.finish(r, Some("on_start"), vec![], true);
+    } else {
+        s.go(r, [0; 4], vec![]);
     }
-    let mut next_root = 0;
-    loop {
-        let next_obs = observed.and_then(|(o, _)| o.get(r.out.len()));
-        let mut pick: Option<usize> = None; // index into pending
-        if let Some(t) = next_obs.and_then(|e| e.strip_prefix("susp#")).and_then(|t| t.parse::<i32>().ok()) {
-            pick = r.pending.iter().position(|x| x.0 == t);
-        }
-        if pick.is_none() && !r.pending.is_empty() && (observed.is_none() || next_root >= roots.len()) {
-            pick = Some(0);
-        }
-        if let Some(ix) = pick {
-            let (t, h, y) = r.pending.remove(ix);
-            r.out.push(format!("susp#{}", t));
-            if r.exec(&h, y).is_err() {
-                return fin(r, Some("suspended"), notes);
-            }
-        } else if next_root < roots.len() {
-            let ev = roots[next_root];
-            next_root += 1;
-            let res = match ev {
-                RootEv::Cmd => {
-                    r.out.push("cmd(go)".into());
-                    r.body(ROOT)
-                }
-                RootEv::ExtSetV(x) => r.exec(&H::SetV(X::Lit(x)), 0),
-                RootEv::ExtSetW(x) => r.exec(&H::SetW(X::Lit(x)), 0),
-                RootEv::ExtUpd(k, x) => r.exec(&H::Upd(k, X::Lit(x)), 0),
-                RootEv::ExtRem(k) => r.exec(&H::Rem(k), 0),
-                RootEv::ExtClr => r.exec(&H::Clr, 0),
-            };
-            if res.is_err() {
-                // documented: "Fail with an error. In this case all execution will stop and the agent will fail."
-                let continues = observed.map(|(o, ok)| o.len() > r.out.len() || ok).unwrap_or(false);
-                if continues {
-                    if notes.is_empty() {
-                        notes.push((
-                            "law=fail_ends_agent cascade=command got=agent_continues".to_string(),
-                            "a handler of a cascade started by a command failed; the rest of the cascade was abandoned but the agent went on handling events instead of failing".to_string(),
-                        ));
-                    }
-                } else {
-                    return fin(r, Some("command"), notes);
-                }
-            }
-        } else {
-            break;
-        }
+    match (s.found, s.best) {
+        (Some(e), _) => e,
+        (None, Some((_, e))) => e,
+        (None, None) => unreachable!("the search always produces a candidate"),
     }
-    // on_stop runs last
-    r.out.push("stop".into());
-    if r.body(STOP).is_err() {
-        return fin(r, Some("on_stop"), notes);
-    }
-    r.out.push(format!("final(v={},w={},m={:?})", r.v, r.w, mapv(&r.m)));
-    // (cascades suspended by on_stop itself never run: nothing runs after on_stop)
-    fin(r, None, notes)
 }
 
 /// The kind of a trace entry: its text up to the first of `(`, `#`, `=`.
@@ -339,7 +434,9 @@ pub fn checker(obs: &Observation) -> Vec<(String, String)> {
     if out.is_empty() && exp.notes.is_empty() && exp.failed_in.is_none() {
         if let Some(r) = obs.remotes.first() {
             let first_cmd = r.sent.iter().find(|(_, s)| matches!(s, Step::Cmd(..))).map(|(st, _)| *st).unwrap_or(0);
-            let linked = |lane: &str| r.sent.iter().any(|(st, s)| *st < first_cmd && matches!(s, Step::Link(l) if l == lane));
+            let linked = |lane: &str| {
+                r.sent.iter().any(|(st, s)| *st < first_cmd && matches!(s, Step::Link(l) if l == lane)) && !r.sent.iter().any(|(_, s)| matches!(s, Step::Sync(l) | Step::Unlink(l) if l == lane))
+            };
             for (lane, want) in [("v", exp.final_state.0), ("w", exp.final_state.1)] {
                 if linked(lane) {
                     let last = r.frames.iter().filter(|f| f.lane == lane && f.kind == FrameKind::Event).last().map(|f| String::from_utf8_lossy(&f.body).trim().to_string());
